@@ -595,3 +595,178 @@ Section RoundTrip.
     apply (pack_header_shape attrs _ packed Hpk Hsz).
   Qed.
 End RoundTrip.
+
+(* ================================================================== what an accepted decryption implies *)
+Lemma env_open_inv file e :
+  env_open file = Ok e ->
+  e_hdr e = stored_header file /\ e_data e = stored_ct file /\ e_size e = len file - 2 * BLOCK /\
+  e_cipher e = CIPHER /\ stored_tag file = Some (e_digest e) /\ BLOCK <= len file /\
+  read_attributes (dropz (stored_header file) HDR) = Ok (e_attrs e) /\
+  (exists kh, dict_get (e_attrs e) N_keyHash = Some kh /\ e_key_hash e = a_val kh) /\
+  e_iv e = option_map a_val (dict_get (e_attrs e) N_iv).
+Proof.
+  intros H. unfold env_open in H. cbv zeta in H.
+  destruct (len (takez file BLOCK) <? HDR); [discriminate|].
+  destruct (negb (beq (takez (takez file BLOCK) (len MAGIC)) MAGIC)); [discriminate|].
+  destruct (get_uint false hdr_layout (takez file BLOCK) "version") as [version|]; cbn [of_option bind] in H; [|discriminate].
+  destruct (negb (version =? Gen.EnvelopeTables.envelope_header_version)); [discriminate|].
+  destruct (read_attributes (dropz (takez file BLOCK) HDR)) as [attrs| |] eqn:Hr; cbn [bind] in H; try discriminate.
+  destruct (negb (has_all attrs Gen.EnvelopeTables.envelope_required_attributes)); [discriminate|].
+  destruct (dict_get attrs N_cipherName) as [cn|]; cbn [of_option bind] in H; [|discriminate].
+  destruct (dict_get attrs N_keyHash) as [kh|] eqn:Hkh; cbn [of_option bind] in H; [|discriminate].
+  destruct (a_val cn) as [| | |c|]; try discriminate.
+  destruct (negb (beq c CIPHER)) eqn:Hc; [discriminate|].
+  destruct (Z.ltb_spec (len file) BLOCK) as [|Hlen]; [discriminate|].
+  destruct (get_uint false aead_layout (dropz file (len file - BLOCK)) "version") as [fver|] eqn:Hfv;
+    cbn [of_option bind] in H; [|discriminate].
+  destruct (get_uint false aead_layout (dropz file (len file - BLOCK)) "size") as [fsize|] eqn:Hfs;
+    cbn [of_option bind] in H; [|discriminate].
+  destruct (get_bytes aead_layout (dropz file (len file - BLOCK)) "data") as [fdata|] eqn:Hfd;
+    cbn [of_option bind] in H; [|discriminate].
+  destruct (negb (fver =? Gen.EnvelopeTables.envelope_aead_footer_version)); [discriminate|].
+  injection H as <-. cbn [e_hdr e_data e_size e_cipher e_digest e_attrs e_key_hash e_iv].
+  apply negb_false_iff, beq_eq in Hc. subst c.
+  unfold stored_header, stored_ct, stored_tag. cbv zeta. rewrite Hfd, Hfs.
+  split; [reflexivity|]. split; [reflexivity|]. split; [reflexivity|]. split; [reflexivity|].
+  split; [reflexivity|]. split; [assumption|]. split; [assumption|]. split.
+  - exists kh. now split.
+  - destruct (dict_get attrs N_iv); reflexivity.
+Qed.
+
+(* decrypt_sound: plaintext is returned only if the key hash matched and GCM verification accepted exactly
+   (stored header block ‖ aad, stored ciphertext, stored tag); the bytes returned are the stripped decryption *)
+Theorem decrypt_sound sha gcm_dec gcm_ok file key aad p :
+  open_decrypt sha gcm_dec gcm_ok true file key aad = Ok p ->
+  exists e iv tag,
+    env_open file = Ok e /\ iv_of e = Some iv /\ stored_tag file = Some tag /\
+    hash_matches (sha (CIPHER ++ key)) (e_key_hash e) = true /\
+    gcm_ok key iv (stored_header file ++ aad) (stored_ct file) tag = true /\
+    strip (gcm_dec key iv (stored_ct file)) = Ok p.
+Proof.
+  unfold open_decrypt. destruct (env_open file) as [e| |] eqn:He; cbn [bind]; try discriminate.
+  destruct (env_open_inv file e He) as (Hh & Hd & _ & Hc & Ht & _).
+  unfold decrypt, sha_input, aad_of. rewrite Hc, Hh.
+  destruct (hash_matches (sha (CIPHER ++ key)) (e_key_hash e)) eqn:Hm; cbn [negb]; [|discriminate].
+  destruct (iv_of e) as [iv|] eqn:Hiv; [|discriminate].
+  destruct (negb (key_len_ok key)); [discriminate|].
+  destruct (e_size e <? 0); [discriminate|].
+  destruct (read_chunks_concat (S (List.length (e_data e))) (e_data e) ltac:(lia)) as (cs & Hcs & Hcat).
+  rewrite Hcs. cbn [bind]. rewrite Hcat, Hd.
+  destruct (strip (gcm_dec key iv (stored_ct file))) as [out| |] eqn:Hs; cbn [bind]; try discriminate.
+  cbn [andb]. destruct (gcm_ok key iv (stored_header file ++ aad) (stored_ct file) (e_digest e)) eqn:Hok;
+    cbn [negb]; [|discriminate].
+  intros [= <-]. exists e, iv, (e_digest e). repeat split; assumption.
+Qed.
+
+(* ================================================================== progress: the model never runs out of fuel *)
+Lemma read_value_no_fuel ty buf : read_value ty buf <> Fuel.
+Proof.
+  unfold read_value. destruct (assoc_z type_map ty) as [[cls w]|]; [|discriminate].
+  destruct (ty =? T_String).
+  { destruct (cstring buf) as [[s r]|]; [destruct (utf8_valid s)|]; discriminate. }
+  destruct (ty =? T_Bytes).
+  { destruct (take 8 buf) as [[lb r]|]; [destruct (le_uint lb >? 9223372036854775807)|]; discriminate. }
+  destruct (cls =? 0); [discriminate|]. destruct (take w buf) as [[vb r]|]; discriminate.
+Qed.
+
+Lemma cstring_length buf s r : cstring buf = Some (s, r) -> (List.length r < List.length buf)%nat.
+Proof.
+  revert s r; induction buf as [|b buf IH]; intros s r; cbn [cstring]; [discriminate|].
+  destruct (b =? 0).
+  - intros [= <- <-]. cbn [List.length]. lia.
+  - destruct (cstring buf) as [[s' r']|]; [|discriminate]. intros [= <- <-].
+    specialize (IH _ _ eq_refl). cbn [List.length]. lia.
+Qed.
+
+Lemma take_length n buf x r : take n buf = Some (x, r) -> (List.length r <= List.length buf)%nat.
+Proof.
+  unfold take. destruct (len buf <? n); [discriminate|]. intros [= <- <-].
+  rewrite dropz_skipn, skipn_length. lia.
+Qed.
+
+Lemma read_value_length ty buf v r :
+  read_value ty buf = Ok (Some (v, r)) -> (List.length r <= List.length buf)%nat.
+Proof.
+  unfold read_value. destruct (assoc_z type_map ty) as [[cls w]|]; [|discriminate].
+  destruct (ty =? T_String).
+  { destruct (cstring buf) as [[s r']|] eqn:Hc; [|discriminate]. destruct (utf8_valid s); [|discriminate].
+    intros [= <- <-]. apply cstring_length in Hc. lia. }
+  destruct (ty =? T_Bytes).
+  { destruct (take 8 buf) as [[lb r']|] eqn:Ht; [|discriminate].
+    destruct (le_uint lb >? 9223372036854775807); [discriminate|]. intros [= <- <-].
+    apply take_length in Ht. rewrite dropz_skipn, skipn_length. lia. }
+  destruct (cls =? 0); [discriminate|]. destruct (take w buf) as [[vb r']|] eqn:Ht; [|discriminate].
+  intros [= <- <-]. now apply take_length in Ht.
+Qed.
+
+Lemma read_attrs_no_fuel fuel : forall buf acc, (List.length buf < fuel)%nat -> read_attrs fuel buf acc <> Fuel.
+Proof.
+  induction fuel as [|f IH]; intros buf acc Hf; [lia|]. cbn [read_attrs].
+  destruct buf as [|ty r1]; [discriminate|]. destruct (ty =? T_Invalid); [discriminate|].
+  destruct r1 as [|flag r2]; [discriminate|].
+  destruct (cstring (dropz r2 2)) as [[name r4]|] eqn:Hc; [|discriminate].
+  destruct (negb (utf8_valid name)); [discriminate|].
+  destruct (read_value ty r4) as [[[v r5]|]| |] eqn:Hv; try discriminate.
+  - apply IH. apply cstring_length in Hc. apply read_value_length in Hv.
+    rewrite dropz_skipn, skipn_length in Hc. cbn [List.length] in Hf. lia.
+  - now apply read_value_no_fuel in Hv.
+Qed.
+
+Theorem env_open_no_fuel file : env_open file <> Fuel.
+Proof.
+  unfold env_open. cbv zeta.
+  destruct (len (takez file BLOCK) <? HDR); [discriminate|].
+  destruct (negb (beq (takez (takez file BLOCK) (len MAGIC)) MAGIC)); [discriminate|].
+  destruct (get_uint false hdr_layout (takez file BLOCK) "version") as [version|]; cbn [of_option bind]; [|discriminate].
+  destruct (negb (version =? Gen.EnvelopeTables.envelope_header_version)); [discriminate|].
+  destruct (read_attributes (dropz (takez file BLOCK) HDR)) as [attrs| |] eqn:Hr; cbn [bind]; try discriminate.
+  2:{ unfold read_attributes in Hr. apply read_attrs_no_fuel in Hr; [contradiction|lia]. }
+  destruct (negb (has_all attrs Gen.EnvelopeTables.envelope_required_attributes)); [discriminate|].
+  destruct (dict_get attrs N_cipherName) as [cn|]; cbn [of_option bind]; [|discriminate].
+  destruct (dict_get attrs N_keyHash) as [kh|]; cbn [of_option bind]; [|discriminate].
+  destruct (a_val cn) as [| | |c|]; try discriminate.
+  destruct (negb (beq c CIPHER)); [discriminate|].
+  destruct (len file <? BLOCK); [discriminate|].
+  destruct (get_uint false aead_layout (dropz file (len file - BLOCK)) "version"); cbn [of_option bind]; [|discriminate].
+  destruct (get_uint false aead_layout (dropz file (len file - BLOCK)) "size"); cbn [of_option bind]; [|discriminate].
+  destruct (get_bytes aead_layout (dropz file (len file - BLOCK)) "data"); cbn [of_option bind]; [|discriminate].
+  destruct (negb (_ =? _)); discriminate.
+Qed.
+
+Theorem decrypt_no_fuel sha gcm_dec gcm_ok verify e key aad : decrypt sha gcm_dec gcm_ok verify e key aad <> Fuel.
+Proof.
+  unfold decrypt. destruct (negb (hash_matches _ _)); [discriminate|].
+  destruct (iv_of e); [|discriminate]. destruct (negb (key_len_ok key)); [discriminate|].
+  destruct (e_size e <? 0); [discriminate|].
+  destruct (read_chunks_concat (S (List.length (e_data e))) (e_data e) ltac:(lia)) as (cs & -> & _). cbn [bind].
+  unfold strip. destruct (get_uint _ _ _ _); cbn [of_option bind]; [|discriminate].
+  destruct (_ && _); discriminate.
+Qed.
+
+Theorem open_decrypt_no_fuel sha gcm_dec gcm_ok verify file key aad :
+  open_decrypt sha gcm_dec gcm_ok verify file key aad <> Fuel.
+Proof.
+  unfold open_decrypt. destruct (env_open file) eqn:He; cbn [bind]; try discriminate.
+  - apply decrypt_no_fuel.
+  - now apply env_open_no_fuel in He.
+Qed.
+
+(* ================================================================== the command-line tool *)
+Theorem cli_writes_exactly sha gcm_dec gcm_ok file key aad :
+  match open_decrypt sha gcm_dec gcm_ok true file key aad with
+  | Ok p => cli sha gcm_dec gcm_ok file (Ok key) aad = (Ok tt, Written p)
+  | _ => fst (cli sha gcm_dec gcm_ok file (Ok key) aad) <> Ok tt /\
+         (snd (cli sha gcm_dec gcm_ok file (Ok key) aad) = Absent \/
+          snd (cli sha gcm_dec gcm_ok file (Ok key) aad) = Written [])
+  end.
+Proof.
+  unfold open_decrypt, cli. destruct (env_open file) as [e| |]; cbn [bind].
+  - destruct (decrypt sha gcm_dec gcm_ok true e key aad); cbn [fst snd];
+      [reflexivity | split; [discriminate|now right] | split; [discriminate|now left]].
+  - cbn [fst snd]. split; [discriminate|now left].
+  - cbn [fst snd]. split; [discriminate|now left].
+Qed.
+
+Theorem cli_no_key_no_output sha gcm_dec gcm_ok file aad :
+  cli sha gcm_dec gcm_ok file Err aad = (Err, Absent) \/ cli sha gcm_dec gcm_ok file Err aad = (Fuel, Absent).
+Proof. unfold cli. destruct (env_open file); auto. Qed.
